@@ -20,6 +20,7 @@ EXPLANATION = (
     "handle with directory_known=True is only constructed by open_job(id=...) on paths that established existence through "
     "the directory listing or _contains_job_id."
     ' Also: candidates for an abbreviated id are exactly the listed ids with that prefix (comprehension form, or a bisection range whose bounds are decided), and no mutable object bound in a class body is modified through an instance (C08-e).'
+    ' The listing does not treat symbolic links differently from the membership test; the directory test establishes a job only for a full-length id.'
 )
 UNDECIDED = ("Type-exact round trip through the file, prefix resolution for every collision pattern and the KeyError / "
              "LookupError choice for every id are value-level and not decided.")
